@@ -1,12 +1,20 @@
 (* Property C09: L2CAP channel tables stay exact; closed identifiers are reusable; waiters
-   are released.  Statements only. *)
+   are released.  Statements only; every proof is [exact <lemma of Proofs/ChanMgr.v>].
+
+   The model (Model/ChanMgr.v) is one ChannelManager of bumble/l2cap.py after the repairs
+   D09a-D09e and D07.  Its environment is universally quantified: [reachable m] means m is
+   the state after ANY finite sequence of events - API calls of the application
+   (open LE / enhanced / classic, disconnect, abort, write, grant credits), ANY signalling
+   frame received on ANY connection, loss of ANY connection - that satisfies the
+   hypotheses [ev_ok] (Model/ChanMgr.v, end of file) at every step. *)
 From Coq Require Import ZArith List Bool String.
-From BV Require Import Gen.C09Tables Model.ChanMgr.
+From BV Require Import Gen.C09Tables Model.ChanMgr Proofs.ChanMgrLib Proofs.ChanMgr.
 Import ListNotations.
 Open Scope Z_scope.
 
+(* ---- tie to the source: regenerated on every run *)
 (* The dictionaries the code indexes by connection handle are exactly the tables of the
-   model (re-checked against the regenerated list on every run). *)
+   model. *)
 Theorem C09_tables_modelled :
   per_connection_tables =
   ["channels"; "identifiers"; "le_coc_channels"; "le_coc_requests";
@@ -24,3 +32,157 @@ Proof.
   apply existsb_exists in H. destruct H as [x [Hx He]]. apply String.eqb_eq in He. subst. exact Hx.
 Qed.
 Print Assumptions C09_cleanup_complete.
+
+(* ---- tables_exact: refinement to the set of channels in use *)
+(* `channels` contains (handle, cid, channel) exactly when the channel object exists, belongs
+   to that connection, has that source CID and is in use (open, or being opened /
+   configured / closed on a connection that still exists). *)
+Theorem C09_tables_exact_channels : forall m, reachable m ->
+  forall h k u, In (h, k, u) (m_chs m) <->
+                exists c, hget m u = Some c /\ c_conn c = h /\ c_scid c = k /\ in_use m u c = true.
+Proof. exact tables_exact_channels. Qed.
+Print Assumptions C09_tables_exact_channels.
+
+(* `le_coc_channels` contains (handle, cid, channel) exactly for the connected (or
+   disconnecting) LE credit-based channels of connections that still exist, under the
+   peer's CID. *)
+Theorem C09_tables_exact_le_coc : forall m, reachable m ->
+  forall h k u, In (h, k, u) (m_le m) <->
+                exists c, hget m u = Some c /\ c_conn c = h /\ c_dcid c = k /\ c_kind c = KLe /\
+                          c_live c = true /\ le_open_st (c_st c) = true.
+Proof. exact tables_exact_le. Qed.
+Print Assumptions C09_tables_exact_le_coc.
+
+(* the pending-request tables contain only requests somebody still waits for *)
+Theorem C09_tables_exact_requests : forall m, reachable m ->
+  (forall h id k, In (h, id, k) (m_reqs m) ->
+     exists u c, In (h, k, u) (m_chs m) /\ hget m u = Some c /\ c_st c = SConnecting /\
+                 exists w, c_cw c = Some w /\ wout m w = O_PENDING) /\
+  (forall h id w us, In (h, id, (w, us)) (m_pend m) -> wout m w = O_PENDING).
+Proof. exact tables_exact_requests. Qed.
+Print Assumptions C09_tables_exact_requests.
+
+(* ---- cids_unique *)
+Theorem C09_cids_unique : forall m, reachable m ->
+  NoDup (map fst (m_chs m)) /\ NoDup (map fst (m_le m)) /\
+  (forall h k h' k' u, In (h, k, u) (m_chs m) -> In (h', k', u) (m_chs m) -> h = h' /\ k = k') /\
+  (forall h k h' k' u, In (h, k, u) (m_le m) -> In (h', k', u) (m_le m) -> h = h' /\ k = k').
+Proof. exact cids_unique. Qed.
+Print Assumptions C09_cids_unique.
+
+(* ---- waiters_released *)
+(* A future that is still pending belongs to a channel that is still filed under the
+   future's connection and in use (or to a pending enhanced request of that connection). *)
+Theorem C09_waiters_released_channel : forall m, reachable m ->
+  forall w x, wget m w = Some x -> w_out x = O_PENDING ->
+  match w_kind x with
+  | WOpenEnh => exists us, In (w_conn x, w_ref x, (w, us)) (m_pend m)
+  | _ => exists c k, hget m (w_ref x) = Some c /\ In (w_conn x, k, w_ref x) (m_chs m) /\
+                     in_use m (w_ref x) c = true
+  end.
+Proof. exact waiters_released_channel. Qed.
+Print Assumptions C09_waiters_released_channel.
+
+(* drain() can only be waiting on a connected channel of a live connection *)
+Theorem C09_waiters_released_drain : forall m, reachable m ->
+  forall u c, hget m u = Some c -> c_drained c = false ->
+  c_st c = SConnected /\ c_live c = true /\ In (c_conn c, c_scid c, u) (m_chs m).
+Proof. exact waiters_released_drain. Qed.
+Print Assumptions C09_waiters_released_drain.
+
+(* After the loss of a connection: no future created for it is pending, no drain() on one of
+   its channels can wait, none of its entries is left in any table. *)
+Theorem C09_waiters_released_link : forall m h, reachable m ->
+  let m' := fst (step m (EDown h)) in
+  (forall w x, wget m' w = Some x -> w_conn x = h -> w_out x <> O_PENDING) /\
+  (forall u c, hget m' u = Some c -> c_conn c = h -> c_drained c = true /\ c_live c = false) /\
+  tconn h (m_chs m') = [] /\ tconn h (m_le m') = [] /\ tconn h (m_reqs m') = [] /\
+  tconn h (m_pend m') = [] /\ aget h (m_ids m') = None.
+Proof. exact waiters_released_link. Qed.
+Print Assumptions C09_waiters_released_link.
+
+(* ---- links_independent *)
+(* An event on connection a (an API call on one of its channels, a frame received on it, its
+   loss) leaves everything of any other connection b untouched: b's entries in the five tables,
+   b's identifier counter, b's channel objects and the futures created for b. *)
+Theorem C09_links_independent : forall m e a b, reachable m -> ev_ok m e = true ->
+  ev_conn m e = Some a -> b <> a -> same_conn b m (fst (step m e)).
+Proof. exact links_independent. Qed.
+Print Assumptions C09_links_independent.
+
+(* ---- reopen_succeeds *)
+(* The hypotheses of the following theorems mention only the connection's own tables: an
+   open / accept never fails because of another connection (D09b was a violation of this). *)
+(* With fewer channels in use on the connection than the CID range holds and no pending
+   request with the same identifier ON THIS CONNECTION, an LE open sends its request with a
+   CID that no channel in use has ... *)
+Theorem C09_reopen_le_request : forall m h psm credits, reachable m ->
+  Z.of_nat (List.length (tkeys h (m_chs m))) < le_capacity ->
+  tget h (nid m h) (m_reqs m) = None ->
+  exists scid,
+    snd (step m (EOpen h K_LE psm 1 0 credits)) = [FLeReq (nid m h) psm scid credits] /\
+    le_cid_lo <= scid <= le_cid_hi /\ tget h scid (m_chs m) = None /\
+    let m1 := fst (step m (EOpen h K_LE psm 1 0 credits)) in
+    wout m1 (wuid m) = O_PENDING /\ In (h, scid, huid m) (m_chs m1) /\
+    tget h (nid m h) (m_reqs m1) = Some scid.
+Proof. exact reopen_le_request. Qed.
+Print Assumptions C09_reopen_le_request.
+
+(* ... and when the peer accepts it (with a CID it does not already use), the awaited call
+   returns and the channel is filed in both tables. *)
+Theorem C09_reopen_le_completes : forall m h psm credits dcid credits', reachable m ->
+  Z.of_nat (List.length (tkeys h (m_chs m))) < le_capacity ->
+  tget h (nid m h) (m_reqs m) = None ->
+  let m1 := fst (step m (EOpen h K_LE psm 1 0 credits)) in
+  tget h dcid (m_le m1) = None ->
+  let m2 := fst (step m1 (ERecv h (FLeRsp (nid m h) dcid credits' R_OK))) in
+  wout m2 (wuid m) = O_RESULT /\
+  exists c, hget m2 (huid m) = Some c /\ c_st c = SConnected /\ c_dcid c = dcid /\
+            In (h, c_scid c, huid m) (m_chs m2) /\ In (h, dcid, huid m) (m_le m2).
+Proof. exact reopen_le_completes. Qed.
+Print Assumptions C09_reopen_le_completes.
+
+(* Accepting side: a request is refused only if its PSM is not served, its source CID is the
+   one of a connected channel of the same connection, or 64 channels are in use there. *)
+Theorem C09_reopen_le_accept : forall m h id psm scid credits srv, reachable m ->
+  srv_get psm (m_lesrv m) = Some srv ->
+  tget h scid (m_le m) = None ->
+  Z.of_nat (List.length (tkeys h (m_chs m))) < le_capacity ->
+  exists local,
+    snd (step m (ERecv h (FLeReq id psm scid credits))) = [FLeRsp id local srv R_OK] /\
+    le_cid_lo <= local <= le_cid_hi /\ tget h local (m_chs m) = None /\
+    let m1 := fst (step m (ERecv h (FLeReq id psm scid credits))) in
+    In (h, local, huid m) (m_chs m1) /\ In (h, scid, huid m) (m_le m1).
+Proof. exact reopen_le_accept. Qed.
+Print Assumptions C09_reopen_le_accept.
+
+Theorem C09_reopen_classic_request : forall m h psm mode, reachable m ->
+  Z.of_nat (List.length (tkeys h (m_chs m))) < bredr_capacity ->
+  exists scid,
+    snd (step m (EOpen h K_CL psm 1 mode 0)) = [FConnReq (nid m h) psm scid] /\
+    bredr_cid_lo <= scid <= bredr_cid_hi /\ tget h scid (m_chs m) = None /\
+    let m1 := fst (step m (EOpen h K_CL psm 1 mode 0)) in
+    wout m1 (wuid m) = O_PENDING /\ In (h, scid, huid m) (m_chs m1).
+Proof. exact reopen_classic_request. Qed.
+Print Assumptions C09_reopen_classic_request.
+
+(* ---- non-vacuity and necessity of hypotheses *)
+(* a history that satisfies the hypotheses: open, accept, close, reopen on the same
+   connection, a second connection, link loss *)
+Example C09_history_ok :
+  let es := [EOpen 1 K_LE 128 1 0 3; ERecv 1 (FLeRsp 1 64 2 0); EClose 0; ERecv 1 (FDiscRsp 2 64 64);
+             EOpen 1 K_LE 128 1 0 3; EOpen 2 K_LE 128 1 0 3; ERecv 2 (FLeRsp 1 64 2 0);
+             ERecv 1 (FLeRsp 3 64 2 0); EDown 2] in
+  let m := fst (run (m_init [(128, 2)] [(4097, 0)]) es) in
+  evs_ok (m_init [(128, 2)] [(4097, 0)]) es = true /\
+  m_chs m = [(1, 64, 1)] /\ m_le m = [(1, 64, 1)] /\ map w_out (m_w m) = [1; 1; 1; 1].
+Proof. vm_compute. repeat split. Qed.
+
+(* the hypothesis "no disconnection request for a channel whose connection request is
+   unanswered" is needed: without it a connect() is left pending for ever, even after the
+   link is gone (see docs/C09.md, open questions) *)
+Example C09_hypothesis_needed :
+  let es := [EOpen 1 K_LE 128 1 0 3; ERecv 1 (FDiscReq 9 64 80); EDown 1] in
+  evs_ok (m_init [] []) es = false /\
+  map w_out (m_w (fst (run (m_init [] []) es))) = [O_PENDING].
+Proof. vm_compute. split; reflexivity. Qed.
